@@ -17,7 +17,7 @@ LEVEL = "exploration"
 ENGINE = "E6"
 TECHNIQUE = "exhaustive enumeration of the command-line option space (every subset of options, every order of option groups, 0/1/2 macro files in both orders) x rule/input pairs; the CLI subprocess is compared with the in-process API for the corresponding MatchConfig"
 RULE = ("rule/input pairs: {found once, not found, several matches, captures, needs two macro files in a specific order, "
-        "failing rule (undefined macro with definitions), failing input (missing file)} x {-s assembly, -b binary} x "
+        "failing rule (undefined macro with definitions), failing input (missing file), rule depending on a call target, listing whose addresses restart (identical consecutive address lines), input the disassembler rejects} x {-s assembly, -b binary} x "
         "EVERY subset of {--all-matches, --return_only_address, --debug, --info} x --macros with 0 / 1 / 2 files in both "
         "orders x EVERY order of the option groups on the command line (quick: all orders for 2 pairs, 3 rotations for the "
         "rest); plus the invalid command lines (no -p; neither -s nor -b; both). Each is one `python -m jasm.main` "
@@ -32,8 +32,13 @@ LEVEL_TEXT = ("All option subsets x orders x pairs of the stated sets as real su
 LEVEL_NOTE = "Trusted: parsing of the two log-line formats; the API as the specification of the CLI."
 
 LISTING = [("401000", "mov", ["%rax", "%rbx"]), ("401003", "push", ["%rax"]), ("401004", "push", ["%rax"]),
-           ("401005", "mov", ["%rbx", "%rax"]), ("401008", "ret", [])]
-BIN_SRC = ".text\n mov %rax,%rbx\n push %rax\n push %rax\n mov %rbx,%rax\n ret\n"
+           ("401005", "mov", ["%rbx", "%rax"]), ("401008", "ret", []), ("401009", "call", ["401030"])]
+BIN_SRC = ".text\n mov %rax,%rbx\n push %rax\n push %rax\n mov %rbx,%rax\n ret\n call .+0x22\n"
+# addresses restart at 0 (several code sections): consecutive matches can print identical address lines
+DUP_LISTING_TEXT = ("\nx.o:     file format elf64-x86-64\n\n\nDisassembly of section .text:\n\n0000000000000000 <f>:\n"
+                    "   0:\tc3                   \tret\n\nDisassembly of section .text.g:\n\n0000000000000000 <g>:\n"
+                    "   0:\tc3                   \tret\n   1:\tc3                   \tret\n")
+DUP_BIN_SRC = ".text\n ret\n.section .text.g,\"ax\"\n ret\n ret\n"
 M1 = {"macros": [{"name": "@outer", "pattern": [{"$or": ["@inner", "ret"]}]}]}
 M2 = {"macros": [{"name": "@inner", "pattern": "push"}]}
 M2B = {"macros": [{"name": "@outer", "pattern": ["mov"]}]}   # redefines @outer: file order decides which wins
@@ -48,6 +53,9 @@ PAIRS = {
     "macro_one": dict(rule=make_rule_doc(["@inner", "ret"], None, [{"name": "@z", "pattern": "x"}]), macros=1),
     "fail_rule": dict(rule=make_rule_doc(["@nosuch", "ret"], None, [{"name": "@z", "pattern": "x"}]), macros=0),
     "fail_input": dict(rule=make_rule_doc(["ret"]), macros=0, missing_input=True),
+    "call_target": dict(rule=make_rule_doc([{"call": ["4010"]}]), macros=0),         # depends on an operand a stale valid_addr_range would rewrite
+    "dup_addr": dict(rule=make_rule_doc(["ret"]), macros=0, input="dup"),            # identical consecutive 'Matched address' lines
+    "not_object": dict(rule=make_rule_doc(["ret"]), macros=0, input="notobj"),       # -b: the disassembler rejects the file
 }
 FLAGS = ["--all-matches", "--return_only_address", "--debug", "--info"]
 
@@ -94,12 +102,18 @@ def files(h):
         return _FILES[h.root]
     d = h.path("c20")
     os.makedirs(d, exist_ok=True)
-    f = {"s": os.path.join(d, "in.s"), "b": os.path.join(d, "in.o"), "m1": os.path.join(d, "m1.yaml"), "m2": os.path.join(d, "m2.yaml"),
+    f = {"s": os.path.join(d, "in.s"), "b": os.path.join(d, "in.o"), "dup_s": os.path.join(d, "dup.s"), "dup_b": os.path.join(d, "dup.o"),
+         "notobj_s": os.path.join(d, "notobj.txt"), "notobj_b": os.path.join(d, "notobj.txt"), "m1": os.path.join(d, "m1.yaml"), "m2": os.path.join(d, "m2.yaml"),
          "m2b": os.path.join(d, "m2b.yaml"), "cwd": os.path.join(d, "cwd"), "missing": os.path.join(d, "nosuch.s")}
     open(f["s"], "w").write(fmt_listing(LISTING))
     src = os.path.join(d, "in_src.s")
     open(src, "w").write(BIN_SRC)
     subprocess.run(["as", "--64", src, "-o", f["b"]], check=True)
+    open(f["dup_s"], "w").write(DUP_LISTING_TEXT)
+    src2 = os.path.join(d, "dup_src.s")
+    open(src2, "w").write(DUP_BIN_SRC)
+    subprocess.run(["as", "--64", src2, "-o", f["dup_b"]], check=True)
+    open(f["notobj_s"], "w").write("this is neither a listing nor an object file\n")
     for k, v in (("m1", M1), ("m2", M2), ("m2b", M2B)):
         open(f[k], "w").write(yaml.safe_dump(v, sort_keys=False))
     os.makedirs(f["cwd"], exist_ok=True)
@@ -111,9 +125,17 @@ def files(h):
     return f
 
 
+def input_of(f, pn, kind):
+    p = PAIRS[pn]
+    if p.get("missing_input"):
+        return f["missing"]
+    return f[f"{p['input']}_{kind}"] if p.get("input") else f[kind]
+
+
 def api(h, f, pn, kind, mo, fl):
     gd = h.gd
-    inp = f["missing"] if PAIRS[pn].get("missing_input") else f[kind]
+    inp = input_of(f, pn, kind)
+    h._decoy()      # the library side runs after other operations in this process; the CLI is always a fresh process
     out = {}
     for ret in ("bool", "list"):
         cfg = gd.MatchConfig(pattern_pathstr=f["rule_" + pn], input_file=inp,
@@ -132,7 +154,7 @@ def api(h, f, pn, kind, mo, fl):
 
 
 def cli(f, pn, kind, mo, fl, perm, loglvl):
-    inp = f["missing"] if PAIRS[pn].get("missing_input") else f[kind]
+    inp = input_of(f, pn, kind)
     if loglvl and loglvl[0] == "INVALID":
         argv = {"no_p": ["-s", f["s"]], "no_input": ["-p", f["rule_found_once"]],
                 "both_inputs": ["-p", f["rule_found_once"], "-s", f["s"], "-b", f["b"]],
